@@ -32,8 +32,11 @@ From AF Require Import Lib.Path Lib.Ops Model.MemFile Model.MemFs Model.IOUtil
 
 (* WriteFile then ReadFile: for EVERY payload b (every size: the read loop is proved by induction on
    what is left to read, the size hint and the 1e9 cap play no role) and every permission, in every
-   state where p is a regular file, or p is absent and its parent directory is present
-   ([sane_for]; MemMapFs does not need more for the open to succeed). *)
+   state where p is a regular file, or p is absent and its parent entry is present ([sane_for]).
+   When that parent is a directory the open succeeds; when it is a regular file MemMapFs refuses
+   with ENOTDIR (memmap.go lockfreeBelowFile), WriteFile returns that error, and the hypothesis
+   "WriteFile returned nil" does not hold — before that repair the file was created below the
+   regular file, which became a directory. *)
 Theorem C17_write_read : forall (s : mst) (p : str) (b : bytes) (perm : Z) (s' : mst),
   sane_for s p ->
   write_file m_step s p b perm = (s', ROk) ->
